@@ -1303,9 +1303,26 @@ func (p *PolygonGeometryLatLngs) lastMarshalledLoopIsValid(begin int, expected *
 		ups = append(ups, s2.PointFromLatLng(ulls[j].ToS2LatLng()))
 	}
 	ul := s2.LoopFromPoints(ups)
-	err := ul.Validate()
+	if err := ul.Validate(); err != nil {
+		return false
+	}
 	const areaTolerance = 0.0001
-	return err == nil && math.Abs(1.0-(ul.Area()/expected.Area())) < areaTolerance
+	if math.Abs(1.0-(ul.Area()/expected.Area())) < areaTolerance {
+		return true
+	}
+	// Quantisation moves each vertex by up to half an E7 step in each of
+	// latitude and longitude, which can change the area by about the length
+	// of the boundary times that distance. That exceeds the relative
+	// tolerance for loops smaller than around 100m, which are nevertheless
+	// faithfully represented, so allow for it. A loop whose orientation is
+	// flipped by quantisation changes by close to the area of the sphere,
+	// and is still dropped.
+	const e7Step = math.Pi / 180.0 * 1e-7
+	perimeter := 0.0
+	for j := range ups {
+		perimeter += float64(ups[j].Distance(ups[(j+1)%len(ups)]))
+	}
+	return math.Abs(ul.Area()-expected.Area()) <= perimeter*e7Step
 }
 
 func (p *PolygonGeometryLatLngs) IsValid() bool {
